@@ -122,6 +122,48 @@ def C13_count_exceeds_num_conf():
         return 'num_conf=2 (max_conformers=%d) but %d conformers returned (first=5, pool_multiplier=4)' % (vals[0], mol.GetNumConformers())
 
 
+def C19_smiles_name_with_nbsp():
+    """(outside the premise `good_entry`) str.split() splits at the white space of Unicode too: a name with U+00A0 is cut."""
+    d = _tmp()
+    try:
+        U.dict_to_smiles(os.path.join(d, 't.smi'), {'a\xa0b': 'CCO'})
+        got = U.smiles_to_dict(os.path.join(d, 't.smi'))
+        if got != {'a\xa0b': 'CCO'}:
+            return "table {'a<NBSP>b': 'CCO'} read back as %r" % got
+    finally:
+        shutil.rmtree(d, ignore_errors=True)
+
+
+def C19_sdf_title_with_line_feed():
+    """(outside the premise `sd_safe`) a name containing a line feed makes every record unreadable: the supplier returns None and
+    mol_from_sdf raises AttributeError."""
+    d = _tmp()
+    try:
+        m = _mol(name='a\nb')
+        U.mol_to_sdf(m, os.path.join(d, 'a.sdf'))
+        try:
+            U.mol_from_sdf(os.path.join(d, 'a.sdf'))
+        except AttributeError as e:
+            return 'AttributeError: %s' % e
+    finally:
+        shutil.rmtree(d, ignore_errors=True)
+
+
+def C19_sdf_value_with_blank_line():
+    """(outside the premise `sd_safe`) RDKit's writer drops a property whose value contains a blank line (and strips a trailing
+    line feed)."""
+    d = _tmp()
+    try:
+        m = _mol()
+        m.SetProp('note', 'x\n\ny')
+        U.mol_to_sdf(m, os.path.join(d, 'a.sdf'))
+        r = U.mol_from_sdf(os.path.join(d, 'a.sdf'))
+        if not r.HasProp('note'):
+            return "property note='x\\n\\ny' is missing from the molecule read back"
+    finally:
+        shutil.rmtree(d, ignore_errors=True)
+
+
 if __name__ == '__main__':
     names = sys.argv[1:] or [n for n in sorted(globals()) if n.startswith('C1')]
     for n in names:
